@@ -14,7 +14,7 @@ LEVEL = "fault_enumeration"
 RULE = (
     "text inputs: random strings over a structural alphabet; EVERY single-character edit (deletion; replacement/insertion with each of 32 "
     "structural/control characters incl. \\n \\r \\t NUL) of grammar sentences (exhaustive per sentence); unbalanced parentheses; nesting "
-    "10..100000 levels; strings with lone surrogates (counted separately). Oracle: outcome is a filter or FilterSyntaxError with 0 <= offset, "
+    "10..100000 levels; strings with lone surrogates (counted separately); a backslash followed by pairs that lenient hex converters take (blanks, signs, 0x, _, non-ASCII digits) in every value position. Oracle: outcome is a filter or FilterSyntaxError with 0 <= offset, "
     "0 <= length, offset+length <= len(UTF-8 of the text the error reports); accepted trees are walked with independent RFC 4512 recognisers "
     "for attribute descriptions and matching rules and must re-parse from their own text form to an equal tree; "
     "non-trivial = input that is not a sentence of the grammar; distinct by hash of the text"
